@@ -663,6 +663,35 @@ func checkC12Dec(t *Toks) string {
 				return fail(kind+".prefix", fmt.Sprintf("strict-prefix-accepted/len=%d-of-%d", k, len(payload)))
 			}
 		}
+		// the text layers: no strict prefix of the base64 (or hex) spelling of a valid packet is a packet either
+		if kind == "psetv0" || kind == "psetv2" || kind == "psetv0hex" {
+			text := base64.StdEncoding.EncodeToString(payload)
+			if kind == "psetv0hex" {
+				text = hex.EncodeToString(payload)
+			}
+			for cut := 1; cut <= 5 && cut < len(text); cut++ {
+				t := text[:len(text)-cut]
+				var ok bool
+				if p := guarded(func() {
+					switch kind {
+					case "psetv0":
+						_, err := pset.NewPsetFromBase64(t)
+						ok = err == nil
+					case "psetv0hex":
+						_, err := pset.NewPsetFromHex(t)
+						ok = err == nil
+					default:
+						_, err := psetv2.NewPsetFromBase64(t)
+						ok = err == nil
+					}
+				}); p != nil {
+					return fail(kind+".decode", "panic-on-text-prefix/"+sanitizeDec(p))
+				}
+				if ok {
+					return fail(kind+".prefix", fmt.Sprintf("strict-text-prefix-accepted/cut=%d-of-%d", cut, len(text)))
+				}
+			}
+		}
 		return "OK accepted+prefixes"
 	}
 	if res.accepted {
